@@ -45,7 +45,9 @@ func newStranger(seed int64) mIdent {
 	return mIdent{Name: "S", Wire: wiretest.NewRandomAddress(rng), Acc: acc, Addr: map[wallet.BackendID]wallet.Address{0: acc.Address()}}
 }
 
-func partyIdent(p *Party) mIdent { return mIdent{Name: p.Name, Wire: p.WireID, Addr: p.Addr, Acc: p.Acc} }
+func partyIdent(p *Party) mIdent {
+	return mIdent{Name: p.Name, Wire: p.WireID, Addr: p.Addr, Acc: p.Acc}
+}
 
 // pendingAuto describes an update the victim is waiting to accept automatically.
 type pendingAuto struct {
@@ -73,6 +75,22 @@ type mScene struct {
 	holdM      bool           // keep dropping M's own parent updates during the adversarial phase
 	threadErrs []string
 	seq        byte
+	views      map[channel.ID]*mChanView // the victim's channels at the start of the adversarial phase
+}
+
+// snapshot records the victim's view of its channels (Channel.State takes the machine mutex: it
+// must not be called on a channel that a pending Settle keeps locked).
+func (sc *mScene) snapshot() {
+	sc.views = map[channel.ID]*mChanView{}
+	add := func(ch *client.Channel) {
+		sc.views[ch.ID()] = &mChanView{Params: ch.Params().Clone(), State: ch.State().Clone(), PeerIdx: 1 - ch.Idx()}
+	}
+	if sc.led != nil {
+		add(sc.led)
+	}
+	for _, c := range sc.vsubs {
+		add(c)
+	}
 }
 
 func (sc *mScene) id(who string) mIdent {
@@ -257,6 +275,7 @@ func (sc *mScene) setup() error {
 			return fmt.Errorf("final sub-channel update: %w", err)
 		}
 		sc.subFinal = vsub.State().Clone()
+		sc.snapshot()
 		sc.pend = append(sc.pend, pendingAuto{Kind: "settle", ID: vsub.ID(), Bals: sc.subFinal.Balances.Clone()})
 		// the victim settles the final sub-channel and waits for the parent update
 		vsched.GoNamed("v-settle-sub", func() {
